@@ -44,6 +44,14 @@ def readTris {α} : Nat → Nat → List α → Option (List (Tri α × Nat) × 
       let (ts, xs) ← readTris n (i + 1) xs
       some ((⟨a, b, c⟩, i) :: ts, xs)
 
+def readSegs {α} : Nat → Nat → List α → Option (List (Seg α × Nat) × List α)
+  | 0, _, xs => some ([], xs)
+  | n + 1, i, xs => do
+      let (a, xs) ← mk2 xs
+      let (b, xs) ← mk2 xs
+      let (ts, xs) ← readSegs n (i + 1) xs
+      some ((⟨a, b⟩, i) :: ts, xs)
+
 /-! ### transformed fields: token parsers shared by the Float and the Rat side
 
 shape: `S ce r` (sphere / circle) | `R lo hi` | `C p1 p2 r`;  transform list: `n` then `T o` | `K k` | `M m…` -/
@@ -175,6 +183,29 @@ def handleBits (kind : String) (ws : List String) : Option String := do
               let cp := triClosest envF f.1.a f.1.b f.1.c c
               let dg := cp.dist envF c
               some s!"{hx (meshSign (parityInside inb cnt) d)} {v3s cp} {boolStr (dg == d)}"
+      | _ => none
+  | "b.mesh2" =>
+      -- 2-D `GroupedSegmentsToSDF`: value = sign(parity) × linear-scan minimum over the pieces whose distance is
+      -- not NaN (`mesh2_sdf_exhaustive_min_degenerate`), point/normal of the face the real search returned,
+      -- which must attain that minimum
+      match ws with
+      | inb :: cnt :: gf :: n :: rest =>
+          let inb := inb == "1"
+          let cnt ← cnt.toNat?
+          let gf ← gf.toNat?
+          let n ← n.toNat?
+          let xs ← parseFloats rest
+          let (segs, xs) ← readSegs n 0 xs
+          let (c, _) ← mk2 xs
+          match meshScan2 envF segs c with
+          | none => some "empty"
+          | some (d, _, _) =>
+              match segs[gf]? with
+              | none => some s!"{hx (meshSign (parityInside inb cnt) d)} noface"
+              | some f =>
+                  let cp := segClosest2 envF f.1.a f.1.b c
+                  let dg := cp.dist envF c
+                  some s!"{hx (meshSign (parityInside inb cnt) d)} {v2s cp} {v2s (segNormal2 envF f.1.a f.1.b)} {boolStr (dg == d)}"
       | _ => none
   | "b.coll" =>
       match ws with
@@ -360,6 +391,26 @@ def handleExact (kind : String) (ws : List String) : Option String := do
           let best := tris.foldl (fun m t => if sq t < m then sq t else m) (sq f)
           some (boolStr (sq f == best))
       | _ => none
+  | "x.mesh2" =>
+      -- the face picked by the real 2-D search is a proper segment attaining the exact minimum of the squared
+      -- distances over the proper segments (= over all pieces when the zero-length ones are covered)
+      match ws with
+      | gf :: n :: rest =>
+          let gf ← gf.toNat?
+          let n ← n.toNat?
+          let xs ← parseRats rest
+          let (segs, xs) ← readSegs n 0 xs
+          let (c, _) ← mk2 xs
+          let proper := segs.filter fun t => !(veq2 t.1.a t.1.b)
+          let sq := fun (t : Seg Rat × Nat) => (segClosestQ2 t.1.a t.1.b c).sqDist c
+          match segs[gf]? with
+          | none => some "noface"
+          | some f =>
+              if veq2 f.1.a f.1.b then some "zero-length"
+              else
+                let best := proper.foldl (fun m t => if sq t < m then sq t else m) (sq f)
+                some (boolStr (sq f == best))
+      | _ => none
   | _ =>
   let xs ← parseRats ws
   match kind with
@@ -402,10 +453,14 @@ def handleExact (kind : String) (ws : List String) : Option String := do
             else if veq3 q t0 then "v0" else if veq3 q t1 then "v1" else if veq3 q t2 then "v2" else "o")
   | "x.tri2" => do
       let (p0, xs) ← mk2 xs; let (p1, xs) ← mk2 xs; let (p2, xs) ← mk2 xs; let (c, _) ← mk2 xs
+      let cands := [tri2EdgeCand 0 p0 p1 c, tri2EdgeCand 1 p1 p2 c, tri2EdgeCand 2 p2 p0 c]
       let pk := pickMin (tri2EdgeCand 0 p0 p1 c) [tri2EdgeCand 1 p1 p2 c, tri2EdgeCand 2 p2 p0 c]
       let inside := tri2Contains p0 p1 p2 c
       let vert := pk.2.2.2.1
-      if vert < 3 then
+      -- two different boundary points at exactly the minimal distance: the float code may return either
+      let tie := cands.any fun a => cands.any fun b => a.1 == pk.1 && b.1 == pk.1 && !(veq2 a.2.1 b.2.1)
+      if tie then some "tie"
+      else if vert < 3 then
         let sf ← ratToFloat pk.1
         let d := Float.sqrt sf
         some s!"v{vert} {showRat pk.1} {hx (if inside then d else -d)}"
